@@ -645,8 +645,8 @@ def cases_walk(ctx):
                         yield mk(V, eos, m, N, [[w] for w in p])
                     if V > 1:
                         yield mk(V, eos, m, 1, [[w] for w in p], ninf=True)
-                # two paths: every pair of forced walks (quick: trees up to 27 leaves; beyond that neighbours and a stride)
-                if len(plans) <= 27:
+                # two paths: every pair of forced walks (trees up to 9 leaves quick / 27 thorough; beyond that three partners per walk)
+                if len(plans) <= (9 if ctx.quick else 27):
                     pairs = itertools.product(plans, plans)
                 else:
                     pairs = ((plans[i], plans[(i * 7 + j) % len(plans)]) for i in range(len(plans)) for j in (0, 1, 5))
@@ -883,11 +883,11 @@ def cases_dist_sample(ctx, rescore=False):
                         n = _prod(shape)
                         width = (B or 1) * (1 if B is not None else max(n, 1))
                         # forced pseudo-random streams and the real sampler
-                        for s in range(3 if ctx.quick else 10):
+                        for s in range(2 if ctx.quick else 10):
                             rng = random.Random("%d/%d/%s/%d" % (ctx.seed, sd, shape, s))
                             rows = [[rng.randrange(V) for _ in range(width)] for _ in range(mm * max(n, 1) if B is not None else mm)]
                             yield mk(V, eos, m, B, shape, rows)
-                        for s in range(2 if ctx.quick else 6):
+                        for s in range(1 if ctx.quick else 6):
                             yield mk(V, eos, m, B, shape, None)
 
 
@@ -1007,8 +1007,8 @@ def run_bounded(ctx):
                     nontrivial=lambda c: c["T"] >= 2 and c["V"] >= 2, chunk=128,
                     functions=["_decoding.ctc_greedy_search", "_decoding.CTCGreedySearch.forward"])
     wb = ("V<=3, max_iters 1..%d (and unset with eos set), eos in {unset, every token, -1}, table LM (stateful hash, per-element conditioning, some with zero-probability tokens); "
-          "forced sampler: EVERY walk of the tree for one path (with/without batch dim), every pair of walks for two paths (trees <= 27 leaves), triples in two rotations; "
-          "plus %d seeds of the real sampler per configuration%s" % ((3, 4, "") if q else (4, 16, "; plus 3000 seeded random cases V<=5, max_iters<=8, N<=5")))
+          "forced sampler: EVERY walk of the tree for one path (with/without batch dim), every pair of walks for two paths (trees <= %d leaves, else 3 partners per walk), triples in two rotations; "
+          "plus %d seeds of the real sampler per configuration%s" % ((3, 9, 4, "") if q else (4, 27, 16, "; plus 3000 seeded random cases V<=5, max_iters<=8, N<=5")))
     if want("C07.walk.ends"):
         ctx.bounded("C07.walk.ends", check_walk_ends, (_fix_ninf(c) for c in cases_walk(ctx)), bound=wb,
                     text="every path is in-vocabulary, ends at its first eos or at the step limit, y_lens counts the eos, the walk is as long as its longest path, "
@@ -1028,7 +1028,7 @@ def run_bounded(ctx):
                     nontrivial=lambda c: c["eos"] is not None and c["max_iters"] >= 2, chunk=8,
                     functions=["_decoding.SequentialLanguageModelDistribution.enumerate_support", "_decoding.SequentialLanguageModelDistribution.log_prob"])
     db = ("V<=3, max_iters 1..%d and unset, eos in {unset, every token, -1}, batch in {none,1,2}, sample shapes %s; forced sampler: every single draw of the tree, "
-          "%d pseudo-random forced streams and %d real-sampler seeds per shape" % ((3, _SHAPES, 3, 2) if q else (4, _SHAPES, 10, 6)))
+          "%d pseudo-random forced streams and %d real-sampler seeds per shape" % ((3, _SHAPES, 2, 1) if q else (4, _SHAPES, 10, 6)))
     if want("C07.dist.sample"):
         ctx.bounded("C07.dist.sample", check_dist_sample, cases_dist_sample(ctx), bound=db,
                     text="sample(shape) has shape shape+batch+[S]; every sample completed with eos is in the support (oracle set and enumerate_support); support.check accepts it; "
